@@ -122,6 +122,14 @@ NoLift(pt) == \A form \in {"c", "u", "h"}, i \in {0, 1}, j \in {0, 1}, strict \i
 SeOk(k) == 1 <= k /\ k <= N - 1                      \* a private key
 PubOf(k) == GMul(k)                                  \* its public key, k*G
 PairOk(x, y) == x \in Fp /\ y \in Fp /\ OnCurveXY(x, y)     \* a public key given as integers
+\* A public key handed in by a caller is a VALUE: the point at infinity (however it was obtained: k*G with
+\* n | k, Q + (-Q), (None, None)) or a pair of integers.  Which object carries the value - a tuple, a list, a
+\* point object of this curve or of ANOTHER curve - is irrelevant: the value must be an affine point of THIS curve.
+PubOk(v) == v # Inf /\ PairOk(v[1], v[2])
+\* the same on the fields of the value (isinf: the point at infinity; halfnone: one coordinate missing;
+\* onc: the curve equation holds modulo p).  PubSilentF: not field elements but congruent to a point.
+PubOkF(f) == ~f.isinf /\ ~f.halfnone /\ f.xlt /\ f.ylt /\ f.onc
+PubSilentF(f) == ~f.isinf /\ ~f.halfnone /\ f.onc /\ ~(f.xlt /\ f.ylt)
 
 (* ------------------------------------------------------------------------- 32-byte exponents, WIF *)
 \* n of secp256k1 (SEC 2, 2.4.1), big-endian
